@@ -278,7 +278,7 @@ def run(ctx):
                     if not check_tree(ctx, nodes, tags, ch, s, case, bounds_all=(n <= 5 or T)):
                         break
         ctx.exhaustive.append("all ordered trees with %d nodes x every start x all (mincount,maxcount) in {None,0..count+2}^2" % n)
-    nrand = (2000 if T else 100) // ctx.nshards + 1
+    nrand = (20000 if T else 100) // ctx.nshards + 1
     for r in range(nrand):
         rng = ctx.rng("rand", r)
         n = rng.randint(7, 25)
@@ -298,7 +298,7 @@ def histories(ctx):
     from .. import trees as TR
 
     T = ctx.tier == "thorough"
-    nh = (2000 if T else 160) // ctx.nshards + 1
+    nh = (20000 if T else 160) // ctx.nshards + 1
     for h in range(nh):
         rng = ctx.rng("hist", h)
         k = rng.randint(3, 8)
